@@ -344,6 +344,14 @@ var operations = []opBody{
 		c, b := a.call("POST", "/control/clients/update", `{"name":"kid","data":`+clientJSON("kid2", "10.0.0.1", "cid-a", "10.0.0.7")+`}`)
 		return expect2xx(c, b, "clients/update")
 	}},
+	{"clients-update-ids-a", func(a *asm) string {
+		c, b := a.call("POST", "/control/clients/update", `{"name":"kid","data":`+clientJSON("kid", "10.0.0.2", "cid-a")+`}`)
+		return expect2xx(c, b, "clients/update")
+	}},
+	{"clients-update-ids-b", func(a *asm) string {
+		c, b := a.call("POST", "/control/clients/update", `{"name":"kid","data":`+clientJSON("kid", "10.0.0.3")+`}`)
+		return expect2xx(c, b, "clients/update")
+	}},
 	{"clients-delete", func(a *asm) string {
 		c, b := a.call("POST", "/control/clients/delete", `{"name":"kid"}`)
 		return expect2xx(c, b, "clients/delete")
@@ -482,4 +490,43 @@ var operations = []opBody{
 		a.server.VerifEnableProtectionAfterPause()
 		return ""
 	}},
+}
+
+// clientIndexConsistent checks the persistent-client registry after
+// quiescence: every index entry belongs to an existing client that owns that
+// identifier, and every identifier of every client is indexed exactly once.
+func clientIndexConsistent(st *client.Storage) string {
+	cs, es := client.VerifDump(st)
+	norm := func(s string) string { return strings.ToLower(strings.ReplaceAll(s, ":", "")) }
+	owns := map[string]map[string]bool{}
+	total := 0
+	for _, c := range cs {
+		m := map[string]bool{}
+		for _, id := range c.IDs() {
+			m[norm(id)] = true
+			total++
+		}
+		owns[c.Name] = m
+	}
+	n := 0
+	for _, e := range es {
+		if e.Kind == "name" {
+			if _, ok := owns[e.Owner]; !ok || e.Owner != e.ID {
+				return fmt.Sprintf("name index maps %q to %q, which is not a stored client of that name", e.ID, e.Owner)
+			}
+			continue
+		}
+		n++
+		m, ok := owns[e.Owner]
+		if !ok {
+			return fmt.Sprintf("index entry %s:%s belongs to %q, which is not a stored client", e.Kind, e.ID, e.Owner)
+		}
+		if !m[norm(e.ID)] {
+			return fmt.Sprintf("index entry %s:%s points to client %q, which does not own that identifier (its identifiers: %v)", e.Kind, e.ID, e.Owner, m)
+		}
+	}
+	if n != total {
+		return fmt.Sprintf("%d identifier index entries for %d identifiers of the stored clients: entries %v", n, total, es)
+	}
+	return ""
 }
